@@ -20,6 +20,22 @@ CHECKS = {
                   'generators, range/inverse/gap oracle'),
 }
 
+CHECKS['C15'] = dict(
+    category='exploration', design_ref='DESIGN.md §16 (C15)',
+    text='Every declaration sequence up to length 4 (quick) / 5 (thorough) '
+         'over a 28-symbol alphabet of valid and malformed declarations is '
+         'enumerated (every node of the prefix tree checked: acceptance or '
+         'ValueError/TypeError, state unchanged after rejection, '
+         'dimensionality, both transforms vs a reference interpreter and a '
+         'CDF round trip), plus Hypothesis sequences up to length 12 with '
+         'drawn distributions. Exhaustive over the alphabet to length L, '
+         'sampled beyond.',
+    note='Trusts scipy.stats cdf as the independent inverse (1e-9); '
+         'parameters of the reduced alphabet are one representative per '
+         'kind; unit-cube inputs are sampled.',
+    technique='exhaustive sequence enumeration + Hypothesis sequences vs '
+              'reference interpreter (model-based), CDF round trip')
+
 NOT_YET = {}
 
 
